@@ -1,7 +1,10 @@
 #!/usr/bin/env python3
 import json, sys
 pid = sys.argv[1]
-d = "/tmp/seed-%s" % pid
+rnd = sys.argv[2] if len(sys.argv) > 2 else ""
+avoid = sys.argv[3] if len(sys.argv) > 3 else ""
+d = "/tmp/seed%s-%s" % (rnd, pid)
+avoid_txt = ("\nAn earlier, different exercise already covered this idea, so pick something ELSE (another clause of the property, another code site): " + avoid + "\n") if avoid else ""
 p = [json.loads(l) for l in open('/verif/properties.jsonl') if l.strip()]
 p = [x for x in p if x['id'] == pid][0]
 print(f"""You are working in a scratch git worktree of the Go project flant/shell-operator (a Kubernetes operator runtime that runs shell hooks) at {d}. Do ALL work only inside {d}. Never read, list or write /verif, /repo, or any other /tmp/seed-* directory.
@@ -19,7 +22,7 @@ YOUR TASK: produce ONE realistic change to the project's non-test source (a plau
  1. the project still compiles (`go build ./...`),
  2. the entire existing test suite still passes unchanged (`go test -vet=off -count=1 ./...`), and you do not edit existing tests,
  3. the breakage needs something SPECIFIC to manifest — a particular interleaving, a fault or crash at a particular point, a multi-step sequence of operations, an unusual input, or two cooperating code sites that each look fine alone. It must NOT be something that ordinary use would expose at once (e.g. not "every hook run fails").
-Do not modify anything under pkg/utils/verifhook, nor pkg/shell-operator/verif_assemble.go, and leave every existing `verifhook.Point(...)` call line in place (they are inert instrumentation).
+{avoid_txt}Do not modify anything under pkg/utils/verifhook, nor pkg/shell-operator/verif_assemble.go, and leave every existing `verifhook.Point(...)` call line in place (they are inert instrumentation).
 
 DELIVERABLES, all inside {d}/_seed/ :
  - patch.diff : `git diff` of your source change only (must apply with `git apply` on a clean checkout of HEAD),
